@@ -126,7 +126,7 @@ type mutant struct {
 	Index int    `json:"index"` // position in the tileMatrices array
 }
 
-var c14Kinds = []string{"none", "matrixWidth*2", "matrixHeight+1", "matrixWidth&Height*2", "matrixWidth&Height+1", "matrixWidth&Height-1", "tileWidth&Height/2", "tileWidth&Height*2", "cellSize*0.98", "tileWidth/2", "tileHeight/2", "origin.x+1", "origin.y-1e-6", "corner-flipped",
+var c14Kinds = []string{"none", "matrixWidth*2", "matrixHeight+1", "matrixWidth&Height*2", "matrixWidth&Height+1", "matrixWidth&Height-1", "tileWidth&Height/2", "tileWidth&Height*2", "cellSize*0.98", "matrix/2&tile*2", "matrix*2&tile/2", "tileWidth/2", "tileHeight/2", "origin.x+1", "origin.y-1e-6", "corner-flipped",
 	"cellSize*1.02", "cellSize*2", "cellSize/2", "id+100", "remove", "variableMatrixWidths"}
 
 func applyMutant(doc map[string]any, m mutant) map[string]any {
@@ -155,6 +155,12 @@ func applyMutant(doc map[string]any, m mutant) map[string]any {
 		tm["tileWidth"], tm["tileHeight"] = f("tileWidth")*2, f("tileHeight")*2
 	case "cellSize*0.98":
 		tm["cellSize"] = f("cellSize") * 0.98
+	case "matrix/2&tile*2": // the pixel grid still doubles, the matrix and the tile size each break their own rule
+		tm["matrixWidth"], tm["matrixHeight"] = f("matrixWidth")/2, f("matrixHeight")/2
+		tm["tileWidth"], tm["tileHeight"] = f("tileWidth")*2, f("tileHeight")*2
+	case "matrix*2&tile/2":
+		tm["matrixWidth"], tm["matrixHeight"] = f("matrixWidth")*2, f("matrixHeight")*2
+		tm["tileWidth"], tm["tileHeight"] = f("tileWidth")/2, f("tileHeight")/2
 	case "tileWidth/2":
 		tm["tileWidth"] = f("tileWidth") / 2
 	case "tileHeight/2":
@@ -523,12 +529,12 @@ func init() {
 			}
 		},
 		Extra: c14E2E,
-		Rule:  "all 14 built-in documents: accepted => independent true-quadtree predicate on the JSON document and measured pixel size (two points cellSize/16 apart through InsertPoint/SnapClosestPoints) = cellSize/16 within 1e-6, rejected => error not panic; every accepted built-in x every tile matrix index x 19 perturbations (single fields, and width&height / tile width&height pairs that keep things square): validation (IsQuadTree, then DeviationStats) must reject what the oracle says is no true quadtree, must accept the unmodified set and the set without its last matrix, must never panic; at the process boundary the real binary (hook H2) is run on all built-ins and a sample (thorough: all) of the mutants: exit by error vs panic vs proceeding to 'error opening source'; non-trivial = mutant that is no true quadtree",
+		Rule:  "all 14 built-in documents: accepted => independent true-quadtree predicate on the JSON document and measured pixel size (two points cellSize/16 apart through InsertPoint/SnapClosestPoints) = cellSize/16 within 1e-6, rejected => error not panic; every accepted built-in x every tile matrix index x 21 perturbations (single fields, and width&height / tile width&height pairs that keep things square): validation (IsQuadTree, then DeviationStats) must reject what the oracle says is no true quadtree, must accept the unmodified set and the set without its last matrix, must never panic; at the process boundary the real binary (hook H2) is run on all built-ins and a sample (thorough: all) of the mutants: exit by error vs panic vs proceeding to 'error opening source'; non-trivial = mutant that is no true quadtree",
 		Required: func(string) []string {
 			return []string{"builtin:accept", "builtin:reject", "demanded_rejects", "still_true_quadtrees", "position:first", "position:middle", "position:last", "pixel_size_measurements", "verdict:accept", "verdict:reject"}
 		},
 		MinNonTriv:  500,
-		Exhaustive:  map[string]string{"exh:perturbations": "every accepted built-in set x every tile matrix index x the 20 perturbation kinds (incl. none) (in-process validation)"},
+		Exhaustive:  map[string]string{"exh:perturbations": "every accepted built-in set x every tile matrix index x the 22 perturbation kinds (incl. none) (in-process validation)"},
 		Assumptions: []string{"requested ids are always ids present in the document", "cell-size perturbations of 2 % and 100 % count as breaking 'exactly doubling'; perturbations below 1 % carry no demand", "in-process composition = IsQuadTree then DeviationStats; the order main uses is observed only through the binary"},
 		Technique:   "runtime monitor: independent quadtree predicate vs validation verdicts, in-process and at the process boundary (hook H2)",
 		FlushEvery:  500,
